@@ -38,7 +38,54 @@ fn uses_print(p: &axcut::syntax::Prog) -> bool {
 }
 
 pub fn run_case(_ctx: &Ctx, prog: &Program, _tuples: &[Vec<i64>]) -> CaseResult {
-    let text = emit_program(prog);
+    match run_text(emit_program(prog)) {
+        CaseResult::Pass { nontrivial, hash, mut classes, sample } => {
+            classes.extend(program_classes(prog));
+            CaseResult::Pass { nontrivial, hash, classes, sample }
+        }
+        r => r,
+    }
+}
+
+/// Instance-name matrix: the name of a monomorphic instance is the printed type; instances whose
+/// printed name is `len` characters long (nested `Box[..]` around a template whose name pads to
+/// the exact length), for every length around the printer's page width, built, passed, matched.
+pub fn long_instance_program(len: usize, two_params: bool) -> Option<String> {
+    // t_1 = N<pad>[i64] (or P<pad>[i64, i64]), t_{j+1} = Box[t_j]; |t_{j+1}| = |t_j| + 5
+    let base_min = if two_params { "P[i64, i64]".len() } else { "N[i64]".len() };
+    if len < base_min {
+        return None;
+    }
+    let levels = (len - base_min) / 5;
+    let levels = levels.min(24);
+    let pad = len - base_min - 5 * levels;
+    let inner_name = format!("{}{}", if two_params { "P" } else { "N" }, "q".repeat(pad));
+    let mut tys = vec![if two_params { format!("{inner_name}[i64, i64]") } else { format!("{inner_name}[i64]") }];
+    for j in 0..levels {
+        tys.push(format!("Box[{}]", tys[j]));
+    }
+    let top = tys.last().unwrap().clone();
+    debug_assert_eq!(top.len(), len);
+    let mut value = if two_params { "MkI(5, 6)".to_string() } else { "MkI(5)".to_string() };
+    for _ in 0..levels {
+        value = format!("MkBox({value})");
+    }
+    fn unwrap(var: &str, m: usize, tys: &[String], two: bool) -> String {
+        if m == 0 {
+            if two { format!("{var}.case[i64, i64] {{ MkI(y, z) => y + z }}") } else { format!("{var}.case[i64] {{ MkI(y) => y }}") }
+        } else {
+            let x = format!("x{m}");
+            format!("{var}.case[{}] {{ MkBox({x}) => {} }}", tys[m - 1], unwrap(&x, m - 1, tys, two))
+        }
+    }
+    let decl_inner = if two_params { format!("data {inner_name}[A, B] {{ MkI(y: A, z: B) }}") } else { format!("data {inner_name}[A] {{ MkI(y: A) }}") };
+    Some(format!(
+        "data Box[A] {{ MkBox(x: A) }}\n{decl_inner}\ndef get(b: {top}): i64 {{ {} }}\ndef mk(n: i64): {top} {{ {value} }}\ndef main(): i64 {{ let v: {top} = mk(1); get(v) }}\n",
+        unwrap("b", levels, &tys, two_params)
+    ))
+}
+
+pub fn run_text(text: String) -> CaseResult {
     let fail = |kind: &str, summary: String, extra: serde_json::Value| {
         let mut d = json!({"source": text});
         if let (Some(o), Some(e)) = (d.as_object_mut(), extra.as_object()) {
@@ -98,7 +145,7 @@ pub fn run_case(_ctx: &Ctx, prog: &Program, _tuples: &[Vec<i64>]) -> CaseResult 
         return fail("linear", format!("linearized program is ill-typed: {e}"), json!({"linearized": linear.print_to_string(None)}));
     }
     let has_print = uses_print(&linear);
-    let mut classes = program_classes(prog);
+    let mut classes: Vec<String> = vec![];
     for arch in [Arch::X86, Arch::A64, Arch::Rv] {
         if arch == Arch::Rv && has_print {
             continue;
@@ -159,6 +206,39 @@ pub fn check(ctx: &Ctx) -> i32 {
             report.violations.push(write_replay(ctx, "gencore", &bytes, &f));
         }
     }
+    // instance-name matrix
+    if report.violations.is_empty() {
+        ev.rule.push_str(" Instance-name matrix: programs that declare, build, pass, bind and match an instance whose printed name is exactly L characters long, for every L in 20..=240 (one- and two-parameter innermost template), i.e. on both sides of every layout decision of the printer that produces the name.");
+        for len in 20..=240usize {
+            for two in [false, true] {
+                let Some(text) = long_instance_program(len, two) else { continue };
+                let r = match run_text(text) {
+                    CaseResult::Pass { hash, mut classes, .. } => {
+                        classes.push(format!("instance name of {} characters", if len <= 100 { "<= 100" } else { "> 100" }));
+                        CaseResult::Pass { nontrivial: true, hash, classes, sample: None }
+                    }
+                    // the generated program is well-typed by construction
+                    CaseResult::Discard(d) if d.starts_with("rejected") => CaseResult::Fail(Failure {
+                        kind: "rejected".into(),
+                        summary: format!("instance-name matrix: a well-typed program with an instance name of {len} characters is rejected"),
+                        details: json!({"len": len}),
+                    }),
+                    CaseResult::Fail(mut f) => {
+                        f.summary = format!("instance-name matrix (name of {len} characters): {}", f.summary);
+                        CaseResult::Fail(f)
+                    }
+                    d => d,
+                };
+                if let CaseResult::Fail(f) = &r {
+                    if report.violations.is_empty() {
+                        eprintln!("{}", f.summary);
+                        report.violations.push(write_replay_with(ctx, "instname", &[], f, json!({"len": len, "two_params": two})));
+                    }
+                }
+                ev.absorb(&r);
+            }
+        }
+    }
     // coverage-guided campaign over the generator's choice buffers (thorough only)
     crate::fuzzrun::semantic_phase(ctx, &mut ev, &mut report, "stages", 1112, "gencore", 600, &|b| super::corecase::run(ctx, super::corecase::Mode::Stages, b));
     finish(ctx, &ev, &report, start)
@@ -167,6 +247,12 @@ pub fn check(ctx: &Ctx) -> i32 {
 pub fn replay(ctx: &Ctx, sub: &str, bytes: &[u8], case: &serde_json::Value) -> CaseResult {
     if sub.starts_with("gencore") {
         return super::corecase::run(ctx, super::corecase::Mode::Stages, bytes);
+    }
+    if sub.starts_with("instname") {
+        return match long_instance_program(case["len"].as_u64().unwrap_or(100) as usize, case["two_params"].as_bool().unwrap_or(false)) {
+            Some(t) => run_text(t),
+            None => CaseResult::Discard("no such program".into()),
+        };
     }
     let c = fun_case_from_json(case).unwrap_or_else(|| decode(ctx, bytes));
     run_case(ctx, &c.prog, &c.tuples)
